@@ -567,16 +567,32 @@ func TestVerif_C16_Invert(t *testing.T) {
 
 func TestVerif_C16_Decode(t *testing.T) {
 	rec := stats.Get("C16", "decode")
-	rec.Rule("rapid: byte strings of length 0..40 (32 weighted) with values m-2..m+2, 2^256-1, 0, uniform, 32-byte strings sharing a k-byte prefix with m; oracle: SetBytes accepts iff len=32 and value < m, on error the receiver is unchanged, accepted values round-trip through Bytes. Non-trivial: rejected input, or value within 2 of the modulus; distinct by (field, bytes).")
+	rec.Rule("rapid: byte strings of length 0..40 (32 weighted) with values m-2..m+2, m-1..m+1 moved by one or two powers of two, 2^256-1, 0, uniform, 32-byte strings sharing a k-byte prefix with m; oracle: SetBytes accepts iff len=32 and value < m, on error the receiver is unchanged, accepted values round-trip through Bytes. Non-trivial: rejected input, or value within 2 of the modulus; distinct by (field, bytes).")
 	t.Cleanup(stats.FlushAll)
 	rapid.Check(t, func(t *rapid.T) {
 		f := &c16Fields[gen.Int(t, "field", 0, 1)]
-		cls := gen.Pick(t, "class", "near-m", "near-m", "uniform32", "prefix-m", "len", "allFF", "zero")
+		cls := gen.Pick(t, "class", "near-m", "near-m", "near-m-pow2", "near-m-pow2", "uniform32", "prefix-m", "len", "allFF", "zero")
 		r := gen.Rand(t, "seed")
 		var b []byte
 		switch cls {
 		case "near-m":
 			v := new(big.Int).Add(f.m, big.NewInt(int64(gen.Uniform(t, "off", -3, 3))))
+			b = gen.Pad32(v)
+		case "near-m-pow2":
+			// m-1, m or m+1 moved by one or two powers of two (a single bit or byte "bumped" somewhere): values that differ from the
+			// modulus in the upper or lower half of ONE word only, which a word-wise comparison folds differently than a byte-wise one
+			v := new(big.Int).Add(f.m, big.NewInt(int64(gen.Uniform(t, "off", -1, 1))))
+			for i, n := 0, gen.Uniform(t, "pows", 1, 2); i < n; i++ {
+				d := new(big.Int).Lsh(big.NewInt(1), uint(gen.Uniform(t, fmt.Sprintf("pow%d", i), 0, 255)))
+				if gen.Bool(t, fmt.Sprintf("neg%d", i)) {
+					v.Sub(v, d)
+				} else {
+					v.Add(v, d)
+				}
+			}
+			if v.Sign() < 0 || v.BitLen() > 256 {
+				v = new(big.Int).Set(f.m)
+			}
 			b = gen.Pad32(v)
 		case "uniform32":
 			b = gen.RandBytes(r, 32)
